@@ -433,3 +433,54 @@ fn pack_huge_length_prefix_rejected_10() {
 fn pack_huge_length_prefix_rejected_9() {
     huge_prefix::<10, 9>()
 }
+
+// ---------------------------------------------------------------------------------------------
+// Reference LEB128 readers, proved equal to the crate's Leb128 reads by codec_ref_equiv_len*
+// (hx_codec.rs) and used as stubs for them in the RLE harnesses (hx_rle_load.rs).
+
+pub(crate) fn ref_read_unsigned<'a>(data: &'a [u8]) -> Option<(usize, u64)> {
+    let mut result: u64 = 0;
+    let mut i = 0;
+    while i < data.len() && i < 10 {
+        let byte = data[i];
+        if i == 9 && byte > 1 {
+            return None; // 10th byte may only carry bit 63
+        }
+        result |= ((byte & 0x7f) as u64) << (7 * i);
+        if byte & 0x80 == 0 {
+            return Some((i + 1, result));
+        }
+        i += 1;
+    }
+    None
+}
+
+pub(crate) fn ref_read_signed<'a>(data: &'a [u8]) -> Option<(usize, i64)> {
+    let mut result: i64 = 0;
+    let mut i = 0;
+    while i < data.len() && i < 10 {
+        let byte = data[i];
+        if i == 9 && byte != 0 && byte != 0x7f {
+            return None;
+        }
+        result |= ((byte & 0x7f) as i64) << (7 * i);
+        if byte & 0x80 == 0 {
+            let shift = 7 * (i + 1);
+            if shift < 64 && byte & 0x40 != 0 {
+                result |= -1i64 << shift;
+            }
+            return Some((i + 1, result));
+        }
+        i += 1;
+    }
+    None
+}
+
+pub(crate) fn ref_try_read_unsigned<'a>(data: &'a [u8]) -> Result<(usize, u64), crate::PackError> {
+    ref_read_unsigned(data).ok_or(crate::PackError::InvalidNumber(::leb128::read::Error::Overflow))
+}
+
+pub(crate) fn ref_try_read_signed<'a>(data: &'a [u8]) -> Result<(usize, i64), crate::PackError> {
+    ref_read_signed(data).ok_or(crate::PackError::InvalidNumber(::leb128::read::Error::Overflow))
+}
+
